@@ -19,7 +19,7 @@ class FnRef:
         from .normalize import canon
         self.owner, self.orig = owner, fn
         # rules see the canonical form (locals propagated, guard clauses nested, not-tests flipped); cached, so identity is stable
-        self.fn = canon(None, None, fn, helpers=False)
+        self.fn = canon(None, owner, fn, helpers=False)
 
     @property
     def qual(self) -> str:
